@@ -333,6 +333,7 @@ type StepOpts struct {
 	Pool            bool
 	Mine            bool
 	Truncate        bool
+	Prune           bool // some walks carry the ledger-prune flag
 	AllowPlayHazard bool // only the check that owns the finding sets this
 	PredictSubmit   bool // compare every pool submission with the model's prediction (C03)
 }
@@ -386,7 +387,7 @@ func (s *SUT) Step(rng *rand.Rand, o StepOpts) Op {
 			if target == tip && rng.Intn(4) > 0 {
 				continue
 			}
-			return s.Walk(target, false)
+			return s.Walk(target, o.Prune && rng.Intn(4) == 0)
 		case r < 88 && o.Reopen:
 			if o.Truncate && rng.Intn(2) == 0 && s.LedgerTip() > 0 {
 				mc := s.T.Path(s.LedgerTip())
